@@ -1808,10 +1808,14 @@ class Scheduler:
         if self._dryrun:
             return
 
-        # Record the job as pending, since we're submitting it.
-        # Note that if the CSE is disabled, this job might have the same `eval_hash` as a prior
-        # one. Keep the prior one registered: it stays pending until it is finalized.
-        self._pending_jobs.setdefault((job.eval_hash, job.context_hash), job)
+        # Record the job as pending, since we're submitting it. A job that opted out of CSE
+        # (which includes jobs not recording provenance, whose CallNode is never recorded) is
+        # not registered: it neither reuses nor provides results of equivalent jobs.
+        if (
+            job.get_option("cache_scope", CacheScope.BACKEND, as_type=CacheScope)
+            != CacheScope.NONE
+        ):
+            self._pending_jobs[(job.eval_hash, job.context_hash)] = job
 
         # Submit job.
         if not job.task.script:
